@@ -48,7 +48,7 @@ func (s Sched) valid(n int) bool {
 	}
 	for _, l := range [][]int{s.JoinDelay, s.ConnDelay, s.BodyDelay} {
 		for _, d := range l {
-			if d < 0 || d > 1000 {
+			if d < 0 || d > 10000 {
 				return false
 			}
 		}
